@@ -167,6 +167,36 @@ def decide(gd, idx, cls):
     return res
 
 
+def decide_tail(idx, seed):
+    """A solvable game plus a long TAIL of states nothing leads into (t_n -> ... -> t_1 -> the game): with pruning they are peeled
+    off one per pass of the clean-up loop.  The length is just above the interpreter's default recursion limit; the game itself is
+    a 3-state game whose answer is known in closed form (value 1/2), so no oracle run is needed on the 1000+ states."""
+    rng = games.case_rng(seed, PID, "G-TAIL", idx)
+    n = [1050, 1120, 1300][idx % 3]
+    Pr, P2_ = "Probabilistic", "Player 2"
+    rewards = [1, 0, 0] + [rng.randint(0, 3) for _ in range(n)]
+    players = [Pr, Pr, Pr] + [rng.choice([Pr, P2_]) for _ in range(n)]
+    tl = [[(0.5, 1), (0.5, 2)], [(1, 1)], [(1, 2)]]
+    for k in range(n):
+        tgt = rng.choice([0, 1, 2]) if k == 0 else 3 + k - 1
+        tl.append([(1, tgt)] if players[3 + k] == Pr else [("a", tgt)])
+    game = {"rewards": rewards, "players": players, "transition_list": tl, "final_states": [1]}
+    res = {"idx": idx, "verdict": "held", "stats": {"tail_games": 1, "max_tail": n}, "tags": ["G-TAIL"], "key": "tail:%d:%d" % (idx, n), "nontrivial": True}
+    problems = []
+    for prune in (True, False):
+        out = monitors.observed_solve({k: (list(v) if k != "transition_list" else [list(t) for t in v]) for k, v in game.items()}, prune, 2 * 10 ** 9)
+        res["stats"]["outcome_" + out.status] = res["stats"].get("outcome_" + out.status, 0) + 1
+        if out.status != "ok":
+            problems.append({"mode": "prune" if prune else "no-prune", "problem": "a solvable game with an unreachable tail of %d states is not solved: %s %s %s"
+                             % (n, out.status, out.exc, (out.msg or "")[:120])})
+        elif abs(out.result[3][0] - 0.5) > 1e-9 or abs(out.result[2][0] - 1.0) > 1e-6 or len(out.result[2]) != n + 3:
+            problems.append({"mode": "prune" if prune else "no-prune", "problem": "wrong result for the 3-state core of a game with an unreachable tail",
+                             "got": [out.result[3][0], out.result[2][0]]})
+    if problems:
+        res.update(verdict="violated", what="%s (%s)" % (problems[0]["problem"], problems[0]["mode"]), witness=problems[:2], case={"tail": idx, "seed": seed})
+    return res
+
+
 def decide_split_only(gd, idx, cls, an):
     """Games whose final states are not all absorbing are outside the property's definition of a stopping game as far as the
     reward iteration is concerned (conditioning may legitimately leave a rewarded self-loop on a final state).  The clauses that do
@@ -249,7 +279,8 @@ def decide_edit(idx, seed):
 
 
 def plan(tier, seed):
-    return sc.plan_classes(tier, TABLE) + harness.split("G-EDIT", 200 if tier == "quick" else 2000, 50)
+    tails = [dict(b, env={"VERIF_LOGLEVEL": "", "PYTHONOPTIMIZE": ""}) for b in harness.split("G-TAIL", 3 if tier == "quick" else 9, 1)]
+    return tails + sc.plan_classes(tier, TABLE) + harness.split("G-EDIT", 200 if tier == "quick" else 2000, 50)
 
 
 def _gen(batch, idx):
@@ -267,6 +298,9 @@ def run_batch(batch):
         if batch["cls"] == "G-EDIT":
             yield decide_edit(idx, batch["seed"])
             continue
+        if batch["cls"] == "G-TAIL":
+            yield decide_tail(idx, batch["seed"])
+            continue
         gd = _gen(batch, idx)
         if gd is None:
             yield sc.skipped(idx, "generator gave up")
@@ -278,6 +312,8 @@ def replay(case):
     monitors.install()
     if "edit" in case:
         return decide_edit(case["edit"], case.get("seed", 0))
+    if "tail" in case:
+        return decide_tail(case["tail"], case.get("seed", 0))
     return decide(games.dec_game(case["game"]), 0, "REPLAY")
 
 
